@@ -15,7 +15,7 @@ def ulp(x, k):
     return struct.unpack("<d", struct.pack("<Q", b + k))[0]
 
 
-THR = [0.0, -0.0, 0.5, 0.55, 1.0, 10.0, -3.25, 1e-300, 1e300, float("inf"), -float("inf")]
+THR = [0.0, -0.0, 0.5, 0.55, 1.0, 10.0, -3.25, 1e-300, 1e300, float("inf"), -float("inf"), float("nan")]      # NaN: every ordered comparison with it is false
 EFF = [0.0, -0.0, 1.0, 0.12344999999999999, 0.12345, 0.12345000000000002, 0.1234, 0.12349999999, 0.12350, -0.12345, -0.00001, 0.00009,
        0.99999, 1.00001, 2.5, 1e300, -1e300, 123456789.12345, 123456789.12344, float("inf"), float("nan"), 5e-324, 0.30000000000000004, 0.3]
 
